@@ -189,7 +189,7 @@ func loadValueSpace(refer string, input *Input) (*ValueSpace, error) {
 		} else {
 			foundColumn := -1
 			nameRow := header.NameRow - 1
-			for col := 0; col < sheet.Table.MaxRow; col++ {
+			for col := 0; col < sheet.Table.MaxCol; col++ {
 				nameCell, err := sheet.Table.Cell(nameRow, col)
 				if err != nil {
 					return nil, xerrors.WrapKV(err)
